@@ -71,8 +71,19 @@ def cqlToChronoTime (x : Int) : Option (Int × Int) :=
 
 /-- `From<chrono::DateTime<Utc>> for CqlTimestamp`: `timestamp_millis()`. -/
 def chronoDtToCql (secs millis : Int) : Int := secs * 1000 + millis
-/-- `TryInto<chrono::DateTime<Utc>> for CqlTimestamp`: `timestamp_millis_opt` (floor seconds, sub-second millis). -/
-def cqlToChronoDt (ms : Int) : Int × Int := (ms / 1000, ms % 1000)
+/-- chrono's `DateTime<Utc>` range in milliseconds (`MIN_UTC` / `MAX_UTC`; checked by `conv bounds`). -/
+def chronoDtMinMs : Int := -8334601228800000
+def chronoDtMaxMs : Int := 8210266876799999
+
+/-- `TryInto<chrono::DateTime<Utc>> for CqlTimestamp`: `timestamp_millis_opt` (floor seconds, sub-second
+millis), `ValueOverflow` outside chrono's range. -/
+def cqlToChronoDt (ms : Int) : Option (Int × Int) :=
+  if chronoDtMinMs ≤ ms ∧ ms ≤ chronoDtMaxMs then some (ms / 1000, ms % 1000) else none
+
+/-- `SerializeValue for bigdecimal::BigDecimal` (`serialize/value.rs:142-155`): the `i64` exponent must fit the
+protocol's 4-byte scale, else `ValueOverflow`. -/
+def bigDecimalScale (scale : Int) : Option Int :=
+  if -(2 ^ 31) ≤ scale ∧ scale < 2 ^ 31 then some scale else none
 
 /-! ### the external carriers' own `DeserializeValue` code (`deserialize/value.rs:606-756`)
 
@@ -85,9 +96,6 @@ its `large-dates` feature — with it the `time` range is ±999999 years): -/
 
 def chronoDateMinDays : Int := -96465292
 def chronoDateMaxDays : Int := 95026236
-def chronoDtMinMs : Int := -8334601228800000
-def chronoDtMaxMs : Int := 8210266876799999
-
 /-- `NaiveDate::deserialize`: days since the epoch, `ValueOverflow` outside chrono's range. -/
 def deChronoDate (days : Int) : Option Int :=
   let d := days - 2 ^ 31
@@ -97,9 +105,8 @@ def deChronoDate (days : Int) : Option Int :=
 the same function of the Julian day as `cqlToTimeDate`. -/
 def deTimeDate (days : Int) : Option Int := cqlToTimeDate days
 
-/-- `DateTime<Utc>::deserialize`. -/
-def deChronoDt (ms : Int) : Option (Int × Int) :=
-  if chronoDtMinMs ≤ ms ∧ ms ≤ chronoDtMaxMs then some (ms / 1000, ms % 1000) else none
+/-- `DateTime<Utc>::deserialize` (same arithmetic as `cqlToChronoDt`). -/
+def deChronoDt (ms : Int) : Option (Int × Int) := cqlToChronoDt ms
 
 /-- `OffsetDateTime::deserialize` (same arithmetic as `cqlToTimeOdt`). -/
 def deTimeOdt (ms : Int) : Option (Int × Int) := cqlToTimeOdt ms
